@@ -11,10 +11,11 @@ ID = "C02"
 RULE = (
     "generated hierarchical model programs (Normal/Gamma/InverseGamma/HalfNormal/Exponential/LogNormal/"
     "Beta/Poisson/Bernoulli/degenerate-MVN variables, weak intermediates as Calc or Var, Exp-transformed "
-    "positive variables, distributions without a variable, variables that are neither observed nor "
-    "parameter, user-supplied log_lik/log_prior/log_prob nodes) and DistRegBuilder models (p-/np-smooths, "
+    "positive variables (explicit and auto_transform with the default bijector), weak variables with their own distribution, "
+    "distributions without a variable, variables that are neither observed nor "
+    "parameter, user-supplied scalar and array-valued log_lik/log_prior/log_prob nodes) and DistRegBuilder models (p-/np-smooths, "
     "full-rank and deficient penalties); each evaluated at build time and after random admissible "
-    "assignments (auto-update on, and off + update); each built twice with per_obs flipped on a random "
+    "assignments (auto-update on, off + full update, off + targeted update of the totals); each built twice with per_obs flipped on a random "
     "subset; float32 and x64. non-trivial = >= 2 distribution nodes of different flag classes and one of "
     "{weak intermediate var, per_obs=False, transformed variable, dist without var}; distinct by program hash"
 )
